@@ -7,13 +7,13 @@
 import Asn1.BerSpec
 import Proofs.Placed
 import Proofs.RoundTrip
+import Proofs.RealRT
 
 namespace Asn1
 
 mutual
-/-- types covered: no ANY, no REAL, string kinds known to the decoder tables -/
+/-- types covered: no ANY, string kinds known to the decoder tables -/
 def Ty.plain : Ty → Bool
-  | .prim .real => false
   | .prim (.str k) => allStrKinds.contains k
   | .prim _ => true
   | .any => false
@@ -276,6 +276,30 @@ theorem complete_body : ∀ (t : Ty) (v : Val) (x : TLV), t.plain = true → t.W
       | null => exact ⟨.null, by simp [decBody, decPrim], by simp [VEq]⟩
       | @oid arcs c hh tg ho =>
         exact ⟨.oid arcs, by simp [decBody, decPrim, oidFromContent_oidToContent _ _ ho, Except.map], by simp [VEq]⟩
+      | @real r c hh tg hr =>
+        cases r with
+        | pinf =>
+          simp only [realContent, Option.some.injEq] at hr
+          subst hr
+          exact ⟨.real .pinf, by simp [decBody, decPrim, realFromContent, Except.map], by simp [VEq]⟩
+        | minf =>
+          simp only [realContent, Option.some.injEq] at hr
+          subst hr
+          exact ⟨.real .minf, by simp [decBody, decPrim, realFromContent, Except.map], by simp [VEq]⟩
+        | fin m b e =>
+          simp only [realContent] at hr
+          by_cases hm : m = 0
+          · simp only [hm, if_true, Option.some.injEq] at hr
+            subst hr
+            exact ⟨.real (.fin 0 10 0), by simp [decBody, decPrim, realFromContent, Except.map],
+              by simp [VEq, realKey, hm]⟩
+          · simp only [hm, if_false] at hr
+            by_cases hb : b = 2
+            · simp only [hb, if_true] at hr
+              obtain ⟨r', hd, hk⟩ := realFromContent_realBinToContent m e c hm hr
+              exact ⟨.real r', by simp [decBody, decPrim, hd, Except.map], by
+                simp only [VEq]; rw [hk, hb]⟩
+            · simp [hb] at hr
       | @bits bs hh tg => exact ⟨.bits bs, by simp [decBody, decPrim, bitsFromContent_bitsToContent, Except.map], by simp [VEq]⟩
       | @bitsSeg bs hh tg i cs hs hne hsegs =>
         obtain ⟨frags, hd, hf⟩ := bitSegs_dec cs bs hsegs
